@@ -61,9 +61,11 @@ func VerifBigBinary() {
 	verifAssert(int64(pz.Sign()) == verifRefScalar("sign", sz, -1), tag+".sign_of_result") // zero is never negative
 	if px != pz {
 		verifAssert(verifBigUnchanged(px, sx), tag+".operand_x_unchanged")
+		verifAssert(verifBigUnchanged(px, sx), "C18.big."+op+".operand_x_written")
 	}
 	if py != pz && py != px {
 		verifAssert(verifBigUnchanged(py, sy), tag+".operand_y_unchanged")
+		verifAssert(verifBigUnchanged(py, sy), "C18.big."+op+".operand_y_written")
 	}
 	if verifRefScalar("iszero", sz, -1) == 1 {
 		verifCover("big.zero_result")
@@ -120,6 +122,7 @@ func VerifBigScalar() {
 		verifAssert(int64(x.CmpAbs(&y)) == verifRefScalar("cmpabs", sx, sy), "C16.scalar.cmpabs")
 		verifAssert(verifBigUnchanged(&x, sx), "C16.scalar.operand_x_unchanged")
 		verifAssert(verifBigUnchanged(&y, sy), "C16.scalar.operand_y_unchanged")
+		verifAssert(verifAnd(verifBigUnchanged(&x, sx), verifBigUnchanged(&y, sy)), "C18.big.cmp.operand_written")
 	case "unary":
 		var x BigInt
 		verifBigAny("x", &x, mh)
@@ -133,6 +136,7 @@ func VerifBigScalar() {
 		}
 		verifAssert(int64(x.Bit(0)) == verifRefScalar("bit0", sx, -1), "C16.scalar.bit0")
 		verifAssert(verifBigUnchanged(&x, sx), "C16.scalar.operand_x_unchanged")
+		verifAssert(verifBigUnchanged(&x, sx), "C18.big.scalar.operand_written")
 	case "bitlen":
 		var x BigInt
 		verifBigAny("x", &x, mh)
